@@ -76,10 +76,14 @@ def main():
     if rec.get('status') == 'confirmed':
         os.makedirs(dst, exist_ok=True)
         for f in ('patch.diff', 'demo.py'):
+            if os.path.abspath(src) == os.path.abspath(dst):
+                break
             shutil.copy(os.path.join(src, f), os.path.join(dst, f))
         meta_out = {'property': prop, 'name': name, 'summary': meta.get('summary'), 'needs': meta.get('needs'),
                     'author': 'independent sub-agent given only the property text and a scratch worktree',
                     'agent_report': meta.get('ran'), 'confirmation': rec}
+        if os.path.abspath(src) == os.path.abspath(dst):      # re-check of a stored change: keep its meta, update the confirmation
+            meta_out = dict(meta, confirmation=rec)
         json.dump(meta_out, open(os.path.join(dst, 'meta.json'), 'w'), indent=1)
     print(json.dumps({'dir': dst, 'status': rec.get('status'), 'suite': rec.get('suite_with_change'),
                       'caught_by': rec.get('caught_by'),
